@@ -26,7 +26,12 @@ COMPONENTS = ['', '.', '..', 'a', 'INBOX', 'a.b', '.a', '\0', 'é', 'a' * 300,
 SPECIAL = ['~', '/etc', '../bob', '../../x', '..bob', '../bob/.Keep',
            '../bob/Keep', '../../base/bob', '/', './a', 'a/..', 'a/../..',
            '.../bob', '..\\bob', '.../...', 'bob', '../pymap-etc-passwd',
-           '..', '.', '../bob/cur', '.bob', '..bob.Keep']
+           '..', '.', '../bob/cur', '.bob', '..bob.Keep',
+           # look-alikes that compatibility normalisation folds into INBOX,
+           # '..', '.' and '/'
+           '\uff29\uff2e\uff22\uff2f\uff38', '\uff29NBOX', 'INBO\u2169',
+           '\u2025', '\u2025/bob', '\u2024\u2024/bob', '..\uff0fbob',
+           '\u2025\uff0fbob', '\u0131nbox']
 
 
 def names(maxc):
